@@ -423,6 +423,9 @@ impl Address {
         // byron addresses:
         // bits 7-4: 1000
         (|| -> Result<Self, DeserializeError> {
+            if data.is_empty() {
+                return Err(cbor_event::Error::NotEnough(0, 1).into());
+            }
             let header = data[0];
             let network = header & 0x0F;
             const HASH_LEN: usize = Ed25519KeyHash::BYTE_COUNT;
